@@ -15,6 +15,7 @@ from praatio.utilities import textgrid_io
 from praatio.data_classes import textgrid as dtextgrid
 
 import tiers as T
+import re
 import tgops
 
 FORMATS = ["short_textgrid", "long_textgrid", "json", "textgrid_json"]
@@ -25,6 +26,14 @@ PLAIN_LABELS = ["a", "b c", "", "é", "\U0001d11e", "x=1", "12.5", "3", "-", "l\
 KEYWORD_LABELS = ["item [2]:", "intervals [1]:", "points [3]:", "\"IntervalTier\"", "IntervalTier", "TextTier", "text = \"x\"",
                   "ooTextFile short", "item[1]", "intervals[2]", "points[1]", "xmin = 5", "name = \"n\"", "size = 3", "class = \"IntervalTier\""]
 NAMES = ["words", "phones", "t 1", "é", "n\"q", "x=y"]
+# tier names are kept verbatim by every constructor: leading / trailing blanks, tabs and other white space (A31, fixed: the
+# short-format reader stripped them)
+BLANK_NAMES = [" a b ", "\tq ", " lead", "trail \t", "\u3000wide\u3000", " \"q\" "]
+# ... and line breaks anywhere (A32, fixed: the long-format reader's name pattern had no DOTALL)
+NL_NAMES = ["c\nd", "\nlead", "trail\n", "a\"\nb\" \n", "two\n\nlines", " \n x\ty \n", "name = \"u\"\nv", "xmins\nb"]
+NAMES = NAMES + BLANK_NAMES + NL_NAMES
+# a multi-line name one of whose lines reads like the tier's own span row (known finding A33, long format)
+ROW_NAMES = ["xmin = 1\nb", "a\n xmax= -2.5 \nz"]
 KEYWORD_NAMES = ["item [1]", "IntervalTier", "intervals [1]:"]
 
 # composed labels: quotes, line breaks and blanks in every arrangement (a quote ending a non-final line, runs of quotes,
@@ -117,6 +126,31 @@ def gen_tg(rnd, domain="full", labels=None, names=None, min_len=1e-6, ntiers=Non
         if not valid and rnd.random() < 0.5:
             t["hi"] = hi + 1.0
     return {"lo": lo, "hi": max(t["hi"] for t in tiers), "tiers": tiers}
+
+
+def negate_tg(g, rnd, mode=None):
+    """a textgrid on NEGATIVE times made from one on [0, hi] (negation is exact, so every gap and every near-integer keeps its
+    shape): 'mirror' — the whole textgrid reflected at 0 (span [-hi, -0.0]: the span end is the float -0.0, written `0`);
+    'straddle' — every tier holds its reflected entries followed by its own (span [-hi, hi], entries on both sides of 0, an
+    interval ending at -0.0 may touch one starting at 0.0).  Defect A30 (fixed): the long-format reader lost the sign."""
+    import copy
+    mode = mode or rnd.choice(["mirror", "straddle"])
+    g = copy.deepcopy(g)
+    for t in g["tiers"]:
+        if t["k"] == "I":
+            back = [[-e[1], -e[0], e[2]] for e in reversed(t["es"])]
+        else:
+            back = [[-e[0], e[1]] for e in reversed(t["es"]) if not (mode == "straddle" and e[0] == 0)]
+            back.sort(key=lambda e: (e[0], e[1]))      # points at one time: in the constructor's order (time, then mark)
+        if mode == "mirror":
+            t["es"], t["lo"], t["hi"] = back, -t["hi"], -t["lo"]
+        else:
+            t["es"], t["lo"] = back + t["es"], -t["hi"]
+    if mode == "mirror":
+        g["lo"], g["hi"] = -g["hi"], -g["lo"]
+    else:
+        g["lo"] = -g["hi"]
+    return g
 
 
 # ---------------------------------------------------------------------------------------------
@@ -524,8 +558,25 @@ A10_TABLE = {
 }
 
 
+ROW_IN_NAME = re.compile(r"(xmin|xmax) ?= ?-?[\d.]+(?:[eE][-+]?\d+)?\s*$", re.MULTILINE)
+
+
+def row_in_name(name):
+    """'xmin row' / 'xmax row' when a line of a multi-line tier name, other than its last, ends like the tier's span row (known
+    finding A33: the long-format reader looks for the span rows from the top of the tier header, through the name)"""
+    if "\n" not in name:
+        return None
+    m = ROW_IN_NAME.search(name[:name.rindex("\n")])
+    return None if m is None else m.group(1) + " row"
+
+
 def keyword_place(g, fmt):
     """(keyword, place) of the first keyword occurrence that is relevant for this format"""
+    if fmt == "long_textgrid":
+        for t in g["tiers"]:
+            kw = row_in_name(t["name"])
+            if kw:
+                return kw, "name"
     for (f, kw), places in A10_TABLE.items():
         if f != fmt:
             continue
